@@ -3,28 +3,29 @@ import Proofs.C16Ring
 import Proofs.C16Refresh
 import Proofs.C16Index
 import Proofs.C16RefreshIdx
+import Proofs.C16Update
 /-! # C16 — the driver's picture of the cluster follows what the cluster reports (ring level)
 
-Model: `Model/Ring.lean` — the three indexes of `ring` (ring.go) and the diff loop of `refreshRing`
+Model: `Model/Ring.lean` — the three indexes of `ring` (ring.go) and the diff part of `refreshRing`
 (host_source.go), with `removeHost` as REPAIRED for KF-C16-1 (the by-address entry is deleted only when
-it still maps to the host id being removed). Events, debouncing, pool and policy propagation are NOT
-covered here. -/
+it still maps to the host id being removed), `addOrUpdate` as repaired for KF-C16-5 (the by-address index
+follows a node address changed by `HostInfo.update`) and `refreshRing` as repaired for KF-C16-4 / KF-C16-6
+(what is gone is removed before anything is added; of a host id reported twice the first row counts).
+Events, debouncing, pool and policy propagation: `Proofs/C16Events.lean`. -/
 namespace C16
 open Ring
 
-/-- For every prior ring (well-formed: entries stored under their own id — true of every reachable ring),
-every host filter and every reported host list in which the accepted hosts have distinct host ids:
-the refresh succeeds and afterwards the ids in the ring are EXACTLY the ids of the accepted reported
-hosts (new ones added, vanished ones removed, filtered ones absent). -/
-theorem C16_refresh_exact (r : Ring.Ring) (hw : WF r.byId) (filter : RHost → Bool) (reported : List RHost)
-    (hn : ((reported.filter (fun h => !filter h)).map (·.id)).Nodup) :
-    (r.refresh filter reported).2.1 = .ok ∧
+/-- FULL theorem (before the repair of KF-C16-6 it needed pairwise distinct accepted host ids: a host id
+reported twice aborted the refresh). For every prior ring (well-formed: entries stored under their own
+id — true of every reachable ring), every host filter and EVERY reported host list (duplicates included):
+after the refresh the ids in the ring are EXACTLY the ids of the accepted reported hosts (new ones added,
+vanished ones removed, filtered ones absent). -/
+theorem C16_refresh_exact (r : Ring.Ring) (hw : WF r.byId) (filter : RHost → Bool) (reported : List RHost) :
     (∀ id, id ∈ (r.refresh filter reported).1.ids ↔ ∃ h ∈ reported, filter h = false ∧ h.id = id) ∧
     WF (r.refresh filter reported).1.byId := by
-  have ⟨h1, h2⟩ := refresh_exact r hw filter reported hn
-  refine ⟨h1, ?_, WF_refresh r hw filter reported hn⟩
+  refine ⟨?_, WF_refresh r hw filter reported⟩
   intro id
-  have := h2 id
+  have := refresh_exact r hw filter reported id
   simp only [keys, acceptedIds] at this
   simp only [Ring.ids]
   rw [this]
@@ -44,12 +45,42 @@ example :
     (r.refresh (fun _ => false) [b', c]).1.getHostByIP 9 = (some b', true) ∧
     (r.refresh (fun _ => false) [b', c]).1.getHostByIP 8 = (none, false) := by decide
 
-/-- a reported list with the same host id twice makes the refresh fail half way (mirrors the code:
-`ErrCannotFindHost`; the remaining hosts are not processed and nothing is removed) -/
-theorem C16_refresh_duplicate_id_fails :
+/-- the first accepted reported host with host id `id` -/
+def firstRow (filter : RHost → Bool) (reported : List RHost) (id : Nat) : Option RHost :=
+  (reported.filter (fun h => !filter h)).find? (fun h => h.id == id)
+
+theorem lookup_reportedMap (filter : RHost → Bool) (reported : List RHost) (id : Nat) :
+    lookup (reportedMap filter reported) id = firstRow filter reported id := by
+  unfold reportedMap firstRow lookup
+  induction reported.filter (fun h => !filter h) with
+  | nil => rfl
+  | cons h t ih =>
+    simp only [List.map_cons, List.find?_cons]
+    split
+    · rfl
+    · exact ih
+
+/-- `C16_refresh_first_row_wins` (replaces `C16_refresh_duplicate_id_fails`: before the repair of KF-C16-6 a
+host id reported twice made the refresh return ErrCannotFindHost half way). For every reachable ring and
+EVERY report: of the accepted rows of one host id the FIRST counts — the ring's object of that id carries
+its node address and connect address (a host whose address changed is replaced), and it is the object that
+was stored before when that one already had these addresses, else the row's own object. -/
+theorem C16_refresh_first_row_wins (r : Ring.Ring) (hw : WF r.byId) (hn : (keys r.byId).Nodup) (filter : RHost → Bool)
+    (reported : List RHost) (id : Nat) (h : RHost) (hf : firstRow filter reported id = some h) :
+    ∃ s, (r.refresh filter reported).1.getHost id = some s ∧ s.addr = h.addr ∧ s.caddr = h.caddr ∧
+      (r.getHost id = some s ∨ s = h) :=
+  refresh_stored r hw hn filter reported id h (by rw [lookup_reportedMap]; exact hf)
+
+/-- non-vacuity: host id 1 reported twice (a stale row next to the current one) between two other hosts — the
+refresh completes, the first row counts, the host after the duplicate is added, the vanished host removed -/
+example :
     let a : RHost := ⟨1, 1, 7, 7⟩
     let a2 : RHost := ⟨2, 1, 8, 8⟩
-    (Ring.empty.refresh (fun _ => false) [a, a2]).2.1 = .errCannotFind := by decide
+    let c : RHost := ⟨3, 3, 9, 9⟩
+    let r0 := (Ring.empty.refresh (fun _ => false) [⟨9, 5, 4, 4⟩]).1
+    firstRow (fun _ => false) [a, a2, c] 1 = some a ∧
+    (r0.refresh (fun _ => false) [a, a2, c]).1.ids = [3, 1] ∧ (r0.refresh (fun _ => false) [a, a2, c]).1.getHost 1 = some a ∧
+    (r0.refresh (fun _ => false) [a, a2, c]).2.filled = [a, c] := by decide
 
 /-! ### index consistency (KF-C16-1 repaired)
 
@@ -60,10 +91,9 @@ topology refreshes every host of the ring is found by its id and by its address:
 /-- a cluster report as the diff loop sees it: the host filter and the reported hosts (local host + valid peers) -/
 abbrev Report := (RHost → Bool) × List RHost
 
-/-- the accepted (not filtered) reported hosts have pairwise distinct host ids and pairwise distinct
-node addresses — every report of a real cluster -/
-def GoodReport (x : Report) : Prop :=
-  ((x.2.filter (fun h => !x.1 h)).map (·.id)).Nodup ∧ ((x.2.filter (fun h => !x.1 h)).map (·.addr)).Nodup
+/-- the accepted (not filtered) reported hosts have pairwise distinct node addresses — every report of a
+real cluster (host ids need not be distinct any more: of a host id reported twice the first row counts) -/
+def GoodReport (x : Report) : Prop := ((x.2.filter (fun h => !x.1 h)).map (·.addr)).Nodup
 
 instance (x : Report) : Decidable (GoodReport x) := by unfold GoodReport; infer_instance
 
@@ -77,12 +107,12 @@ theorem RInv_runRefreshes (r0 : Ring.Ring) (h0 : RInv r0) (hist : List Report) (
   | nil => exact h0
   | cons x t ih =>
     have hx := hg x List.mem_cons_self
-    exact ih _ (refresh_RInv r0 h0 x.1 x.2 hx.1 hx.2) (fun y hy => hg y (List.mem_cons_of_mem _ hy))
+    exact ih _ (refresh_RInv r0 h0 x.1 x.2 hx) (fun y hy => hg y (List.mem_cons_of_mem _ hy))
 
 /-- FULL theorem (was `C16_index_consistent_partial` before the repair of KF-C16-1).
 For every consistent prior ring `r0` (`RInv`: hosts stored under their own id, every host indexed by its
 address, no two hosts on one address — in particular the empty ring) and EVERY history of refreshes whose
-accepted reported hosts have pairwise distinct host ids and pairwise distinct addresses — including
+accepted reported hosts have pairwise distinct node addresses — including
 refreshes that replace a host id on the same address (dead node replaced), hosts whose address changed,
 hosts that swap addresses, filtered hosts — every host of the resulting ring is found by its id and by
 its address. -/
@@ -99,24 +129,21 @@ theorem C16_refresh_index_consistent_from_empty (hist : List Report) (hg : ∀ x
     ∀ h ∈ r.allHosts, r.getHost h.id = some h ∧ r.getHostByIP h.addr = (some h, true) :=
   C16_refresh_index_consistent Ring.empty RInv_empty hist hg
 
-/-- after such a history the ring holds exactly the accepted hosts of the LAST report, every refresh of
-the history having succeeded on the way (the last one shown here), and each of them is found by id and
-by address -/
+/-- after such a history the ring holds exactly the accepted hosts of the LAST report and each of them is
+found by id and by address -/
 theorem C16_refresh_history_follows_last_report (r0 : Ring.Ring) (h0 : RInv r0) (pre : List Report) (x : Report)
     (hg : ∀ y ∈ pre ++ [x], GoodReport y) :
     let r := runRefreshes r0 (pre ++ [x])
-    ((runRefreshes r0 pre).refresh x.1 x.2).2.1 = .ok ∧
     (∀ id, id ∈ r.ids ↔ ∃ h ∈ x.2, x.1 h = false ∧ h.id = id) ∧
     (∀ h ∈ r.allHosts, r.getHost h.id = some h ∧ r.getHostByIP h.addr = (some h, true)) := by
   intro r
   have hpre := RInv_runRefreshes r0 h0 pre (fun y hy => hg y (List.mem_append_left _ hy))
-  have hx := hg x (List.mem_append_right _ List.mem_cons_self)
   have hr : r = ((runRefreshes r0 pre).refresh x.1 x.2).1 := by
     simp only [r, runRefreshes, List.foldl_append, List.foldl_cons, List.foldl_nil]
-  have hex := C16_refresh_exact (runRefreshes r0 pre) hpre.wf x.1 x.2 hx.1
-  refine ⟨hex.1, ?_, C16_refresh_index_consistent r0 h0 (pre ++ [x]) hg⟩
+  have hex := C16_refresh_exact (runRefreshes r0 pre) hpre.wf x.1 x.2
+  refine ⟨?_, C16_refresh_index_consistent r0 h0 (pre ++ [x]) hg⟩
   rw [hr]
-  exact hex.2.1
+  exact hex.1
 
 /-- non-vacuity: the history of KF-C16-1 — a dead node (id 1 on address 7) replaced by a new host id
 on the same address — and two hosts swapping their addresses in one report -/
@@ -178,14 +205,19 @@ theorem C16_ops_index_consistent_distinct_addr (ops : List ROp) (hg : Guarded Ri
 example : Guarded Ring.empty [.addIfMissing ⟨1, 1, 7, 7⟩, .addIfMissing ⟨2, 2, 8, 8⟩, .remove 1, .addOrUpdate ⟨3, 3, 7, 7⟩] := by
   refine ⟨?_, ?_, ?_, trivial⟩ <;> decide
 
-/-- a ring operation or a refresh with an ARBITRARY report (duplicates, shared addresses, failing half way) -/
-inductive HOp | op (o : ROp) | refresh (filter : RHost → Bool) (reported : List RHost)
+/-- a ring operation, a refresh with an ARBITRARY report (duplicates, shared addresses), or `addOrUpdate`
+finding the host id stored and `HostInfo.update` leaving the stored object with node address `a` and
+connectAddress field `c` (ANY values: `update` only fills unset fields, this covers more) -/
+inductive HOp | op (o : ROp) | refresh (filter : RHost → Bool) (reported : List RHost) | update (id a c : Nat)
 
 def applyH (r : Ring.Ring) : HOp → Ring.Ring
   | .op o => applyOp r o
   | .refresh f rep => (r.refresh f rep).1
+  | .update id a c => r.updateStored id a c
 
-/-- After EVERY history of ring operations and refreshes (no hypothesis at all) the by-address index has
+/-- FULL theorem since the repair of KF-C16-5 (before it, histories in which `HostInfo.update` changed the
+node address of a stored host were excluded: the old key stayed behind).
+After EVERY history of ring operations, refreshes and in-place address updates (no hypothesis at all) the by-address index has
 no stale entry: when `getHostByIP a` answers "known address" the host it returns is a host of the ring
 with address `a` — never nil (`handleNodeUp` / `handleNodeDown` dereference it). -/
 theorem C16_byip_never_stale (ops : List HOp) :
@@ -207,17 +239,20 @@ theorem C16_byip_never_stale (ops : List HOp) :
           | addOrUpdate h' => exact SInv_addIfMissing r h h'
           | remove k => exact SInv_remove r h k
         | refresh f rep => exact refresh_preserves SInv (fun r h' hp => SInv_addIfMissing r hp h') (fun r k hp => SInv_remove r hp k) r h f rep
+        | update id a c => exact SInv_updateStored r h id a c
     exact this ops _ SInv_empty
   exact NoStale_lookup r hi.knodup hi.ns a x hx
 
-/-- along the history: no host is added by a ring operation while a host with another id has its address,
-and every refresh has a `GoodReport`; removals are unrestricted, everything may be interleaved -/
+/-- along the history: no host is added by a ring operation, or moved by an address update, while a host
+with another id has its (new) address, and every refresh has a `GoodReport`; removals are unrestricted,
+everything may be interleaved -/
 def HGuarded : Ring.Ring → List HOp → Prop
   | _, [] => True
   | r, .op (.addIfMissing h) :: t => AddrFree r h ∧ HGuarded (r.addIfMissing h).1 t
   | r, .op (.addOrUpdate h) :: t => AddrFree r h ∧ HGuarded (r.addOrUpdate h).1 t
   | r, .op (.remove id) :: t => HGuarded (r.remove id).1 t
   | r, .refresh f rep :: t => GoodReport (f, rep) ∧ HGuarded (r.refresh f rep).1 t
+  | r, .update id a c :: t => AddrFreeFor r id a ∧ HGuarded (r.updateStored id a c) t
 
 theorem RInv_runH (r : Ring.Ring) (hr : RInv r) (ops : List HOp) (hg : HGuarded r ops) : RInv (ops.foldl applyH r) := by
   induction ops generalizing r with
@@ -229,7 +264,8 @@ theorem RInv_runH (r : Ring.Ring) (hr : RInv r) (ops : List HOp) (hg : HGuarded 
       | addIfMissing h => exact ih _ (RInv_addIfMissing r hr h hg.1) hg.2
       | addOrUpdate h => exact ih _ (RInv_addIfMissing r hr h hg.1) hg.2
       | remove id => exact ih _ (RInv_remove r hr id) hg
-    | refresh f rep => exact ih _ (refresh_RInv r hr f rep hg.1.1 hg.1.2) hg.2
+    | refresh f rep => exact ih _ (refresh_RInv r hr f rep hg.1) hg.2
+    | update id a c => exact ih _ (RInv_updateStored r hr id a c hg.1) hg.2
 
 theorem notFound_nil_of (r : Ring.Ring)
     (h : ∀ h ∈ r.allHosts, r.getHost h.id = some h ∧ r.getHostByIP h.addr = (some h, true)) : r.notFound = [] := by
@@ -251,9 +287,11 @@ theorem C16_history_index_consistent (ops : List HOp) (hg : HGuarded Ring.empty 
     fun h hh => RInv_lookup r (RInv_runH _ RInv_empty ops hg) h hh
   exact ⟨h1, notFound_nil_of r h1⟩
 
-/-- non-vacuity: a session's first host, then a report that replaces it by a new host id on its address, then a removal -/
-example : HGuarded Ring.empty [.op (.addOrUpdate ⟨1, 1, 7, 7⟩), .refresh (fun _ => false) [⟨2, 2, 7, 7⟩, ⟨3, 3, 8, 8⟩], .op (.remove 3)] := by
-  refine ⟨by decide, by decide, trivial⟩
+/-- non-vacuity: a session's first host, then a report that replaces it by a new host id on its address, an
+address update of that host, then a removal -/
+example : HGuarded Ring.empty [.op (.addOrUpdate ⟨1, 1, 7, 7⟩), .refresh (fun _ => false) [⟨2, 2, 7, 7⟩, ⟨3, 3, 8, 8⟩],
+    .update 2 9 7, .op (.remove 3)] := by
+  refine ⟨by decide, by decide, by decide, trivial⟩
 
 /-- the observation `covered` = `Ring.uncovered` of the differential run is empty after every
 `RemGuarded` history of ring operations -/
@@ -274,15 +312,11 @@ theorem C16_ops_uncovered_nil (ops : List ROp) (hg : RemGuarded Ring.empty ops) 
       Bool.false_or, Bool.not_eq_eq_eq_not, Bool.not_true, Bool.not_eq_false]
     exact List.any_eq_true.mpr ⟨h', hm, by simp [e, hadr]⟩
 
-/-- the observation `nostale` = `Ring.staleAddrs` of the differential run is empty after EVERY history -/
-theorem C16_stale_nil (ops : List HOp) (n : Nat) : (ops.foldl applyH Ring.empty).staleAddrs n = [] := by
-  have hall := C16_byip_never_stale ops
-  dsimp only at hall
-  generalize ops.foldl applyH Ring.empty = r at hall
+theorem staleAddrs_nil_of_SInv (r : Ring.Ring) (hi : SInv r) (n : Nat) : r.staleAddrs n = [] := by
   unfold Ring.staleAddrs
   rw [List.filter_eq_nil_iff]
   intro a _
-  have := hall a
+  have := NoStale_lookup r hi.knodup hi.ns a
   generalize r.getHostByIP a = res at this
   obtain ⟨x, b⟩ := res
   cases b with
@@ -291,9 +325,28 @@ theorem C16_stale_nil (ops : List HOp) (n : Nat) : (ops.foldl applyH Ring.empty)
     obtain ⟨h, rfl, hm, ha⟩ := this x rfl
     simp [hm, ha]
 
+theorem SInv_runH (ops : List HOp) : ∀ (r : Ring.Ring), SInv r → SInv (ops.foldl applyH r) := by
+  induction ops with
+  | nil => intro r h; exact h
+  | cons o t ih =>
+    intro r h
+    apply ih
+    cases o with
+    | op o =>
+      cases o with
+      | addIfMissing h' => exact SInv_addIfMissing r h h'
+      | addOrUpdate h' => exact SInv_addIfMissing r h h'
+      | remove k => exact SInv_remove r h k
+    | refresh f rep => exact refresh_preserves SInv (fun r h' hp => SInv_addIfMissing r hp h') (fun r k hp => SInv_remove r hp k) r h f rep
+    | update id a c => exact SInv_updateStored r h id a c
+
+/-- the observation `nostale` = `Ring.staleAddrs` of the differential run is empty after EVERY history -/
+theorem C16_stale_nil (ops : List HOp) (n : Nat) : (ops.foldl applyH Ring.empty).staleAddrs n = [] :=
+  staleAddrs_nil_of_SInv _ (SInv_runH ops _ SInv_empty) n
+
 /-- RESIDUAL case (kernel-checked), outside what the property demands: two LIVE hosts on one address is
-not a state a cluster reports (`GoodReport`), it exists only transiently inside the diff loop, where the
-host removed is never the indexed one (`IdxCore_remove`). With the repaired code the by-address index
+not a state a cluster reports (`GoodReport`) and, since refreshRing removes what is gone before it adds
+anything, not a state inside a refresh with a `GoodReport` either. With the repaired code the by-address index
 still points to only one of two live hosts that share an address, and removing THAT one un-indexes the
 address: add(id1@7), add(id2@7), removeHost(id2) — id1 is in the ring and is not found by address 7.
 The history violates `RemOk` at the removal. -/
@@ -321,5 +374,18 @@ example :
     let h2 : RHost := ⟨2, 2, 7, 7⟩
     let r := (((Ring.empty.addIfMissing h1).1.addIfMissing h2).1.remove 1).1
     h2 ∈ r.allHosts ∧ r.getHost 2 = some h2 ∧ r.getHostByIP 7 = (some h2, true) := by decide
+
+/-! ### regression: `addOrUpdate` before the repair of KF-C16-5 (`Ring.updateStoredOld`) — a peer-sourced
+host (peer 7) receives broadcast_address 8 and is removed: the by-address entry of 7 is left behind and
+`getHostByIP 7` answers (nil, true), which `handleNodeDown` / `handleNodeUp` dereferenced -/
+
+example :
+    let r := (((Ring.empty.addIfMissing ⟨1, 1, 7, 7⟩).1.updateStoredOld 1 8 7).remove 1).1
+    r.getHostByIP 7 = (none, true) ∧ r.staleAddrs 9 = [7] := by decide
+
+example :
+    let r1 := (Ring.empty.addIfMissing ⟨1, 1, 7, 7⟩).1.updateStored 1 8 7
+    r1.getHostByIP 8 = (some ⟨1, 1, 8, 7⟩, true) ∧ r1.getHostByIP 7 = (none, false) ∧
+    (r1.remove 1).1.getHostByIP 7 = (none, false) ∧ (r1.remove 1).1.staleAddrs 9 = [] := by decide
 
 end C16
